@@ -1,4 +1,5 @@
 import OntVerif.Proofs.P2PMsgRt
+import OntVerif.Proofs.P2PAlloc
 /-! C24 helper lemmas, top level: `ReadMessage`/`Rx` never panic, header checks, the Addr patch is conservative,
 canonical payloads re-encode to themselves. Core-only. -/
 namespace OntVerif.Proofs.P2PMsg
@@ -29,8 +30,8 @@ theorem readFull_length (st : Bytes) (n : Nat) (b r : Bytes) (h : readFull st n 
     · injection h with h; injection h with h1 h2; subst h1 h2; simp; omega
     · split at h <;> cases h
 
-theorem readMessage_noPanic (magic : Nat) (H : Bytes → Bytes) (stream : Bytes) (hl : stream.length < two64) :
-    readMessage .sound magic H stream ≠ .panic := by
+theorem readMessage_noPanic (O : Oracle) (magic : Nat) (H : Bytes → Bytes) (stream : Bytes) (hl : stream.length < two64) :
+    readMessage O magic H stream ≠ .panic := by
   unfold readMessage
   cases h1 : readFull stream 24 with
   | error e => simp
@@ -42,7 +43,7 @@ theorem readMessage_noPanic (magic : Nat) (H : Bytes → Bytes) (stream : Bytes)
     have hp := spec_parseHeader (g := false).noPanic (St.init hb) wfh (by simp [St.init]; omega)
     cases h2 : parseHeader (St.init hb) with
     | panic => exact (hp h2).elim
-    | err e => simp
+    | err e _ => simp
     | ok r2 =>
       obtain ⟨hdr, _⟩ := r2
       simp only
@@ -59,15 +60,15 @@ theorem readMessage_noPanic (magic : Nat) (H : Bytes → Bytes) (stream : Bytes)
             split
             · simp
             · have wfb : (St.init buf).src.wf := ⟨by simp [St.init], by simp [St.init]; omega⟩
-              have hd := (spec_decodePayload (trimRight0 hdr.cmd)).noPanic (St.init buf) wfb
+              have hd := (spec_decodePayload O (trimRight0 hdr.cmd)).noPanic (St.init buf) wfb
                 (by rename_i hlen _; simp only [St.init]; unfold MAX_PAYLOAD_LEN at hlen; omega)
-              cases h4 : decodePayload .sound (trimRight0 hdr.cmd) (St.init buf) with
+              cases h4 : decodePayload O (trimRight0 hdr.cmd) (St.init buf) with
               | panic => exact (hd h4).elim
-              | err e => simp
+              | err e _ => simp
               | ok r4 => simp
 
-theorem readMessage_rest (v : Variant) (magic : Nat) (H : Bytes → Bytes) (stream : Bytes) (r : ReadOk)
-    (h : readMessage v magic H stream = .ok r) : r.rest.length + 24 ≤ stream.length := by
+theorem readMessage_rest (O : Oracle) (magic : Nat) (H : Bytes → Bytes) (stream : Bytes) (r : ReadOk)
+    (h : readMessage O magic H stream = .ok r) : r.rest.length + 24 ≤ stream.length := by
   unfold readMessage at h
   cases h1 : readFull stream 24 with
   | error e => rw [h1] at h; cases h
@@ -78,7 +79,7 @@ theorem readMessage_rest (v : Variant) (magic : Nat) (H : Bytes → Bytes) (stre
     simp only at h
     cases h2 : parseHeader (St.init hb) with
     | panic => rw [h2] at h; cases h
-    | err e => rw [h2] at h; cases h
+    | err e _ => rw [h2] at h; cases h
     | ok r2 =>
       obtain ⟨hdr, _⟩ := r2
       rw [h2] at h
@@ -96,9 +97,9 @@ theorem readMessage_rest (v : Variant) (magic : Nat) (H : Bytes → Bytes) (stre
             simp only at h
             split at h
             · cases h
-            · cases h4 : decodePayload v (trimRight0 hdr.cmd) (St.init buf) with
+            · cases h4 : decodePayload O (trimRight0 hdr.cmd) (St.init buf) with
               | panic => rw [h4] at h; cases h
-              | err e => rw [h4] at h; cases h
+              | err e _ => rw [h4] at h; cases h
               | ok r4 =>
                 rw [h4] at h
                 obtain ⟨m, st⟩ := r4
@@ -107,157 +108,29 @@ theorem readMessage_rest (v : Variant) (magic : Nat) (H : Bytes → Bytes) (stre
                 simp only
                 omega
 
-theorem rxLoop_noPanic (magic : Nat) (H : Bytes → Bytes) (fuel : Nat) (stream : Bytes) (hl : stream.length < two64) :
-    rxLoop .sound magic H fuel stream ≠ none := by
+theorem rxLoop_noPanic (O : Oracle) (magic : Nat) (H : Bytes → Bytes) (fuel : Nat) (stream : Bytes) (hl : stream.length < two64) :
+    rxLoop O magic H fuel stream ≠ none := by
   induction fuel generalizing stream with
   | zero => simp [rxLoop]
   | succ n ih =>
     unfold rxLoop
-    cases h : readMessage .sound magic H stream with
-    | panic => exact (readMessage_noPanic magic H stream hl h).elim
+    cases h : readMessage O magic H stream with
+    | panic => exact (readMessage_noPanic O magic H stream hl h).elim
     | err e => simp
     | ok r =>
       simp only
       have := readMessage_rest _ _ _ _ _ h
       have := ih r.rest (by omega)
-      cases hr : rxLoop .sound magic H n r.rest with
+      cases hr : rxLoop O magic H n r.rest with
       | none => exact (this hr).elim
       | some k => simp
 
 
-theorem decodePayload_variant (cmd : Bytes) (h : cmd ≠ cAddr) : decodePayload .asShipped cmd = decodePayload .sound cmd := by
-  unfold decodePayload
-  simp only [h, if_false]
-
-/-! errors a decoder can return -/
-def ErrsIn (d : Dec α) (E : DErr → Prop) : Prop := ∀ s e, d s = .err e → E e
-
-theorem ErrsIn.bind {d : Dec α} {f : α → Dec β} {E : DErr → Prop} (hd : ErrsIn d E) (hf : ∀ a, ErrsIn (f a) E) :
-    ErrsIn (d >>= f) E := by
-  intro s e h
-  have h' : Dec.bind d f s = .err e := h
-  unfold Dec.bind at h'
-  cases hds : d s with
-  | panic => rw [hds] at h'; cases h'
-  | err e' => rw [hds] at h'; injection h' with h'; subst h'; exact hd s _ hds
-  | ok r => obtain ⟨a, s1⟩ := r; rw [hds] at h'; exact hf a s1 e h'
-
-theorem ErrsIn.pure (a : α) {E : DErr → Prop} : ErrsIn (Pure.pure a : Dec α) E := by
-  intro s e h; cases h
-theorem ErrsIn.fail (e0 : DErr) {E : DErr → Prop} (h : E e0) : ErrsIn (Model.P2PMsg.fail e0 : Dec α) E := by
-  intro s e he; injection he with he; subst he; exact h
-theorem ErrsIn.liftO (f : Src → Option (α × Src)) {E : DErr → Prop} : ErrsIn (liftO f) E := by
-  intro s e h
-  unfold Model.P2PMsg.liftO at h
-  split at h <;> cases h
-theorem ErrsIn.ite {c : Prop} [Decidable c] {a b : Dec α} {E : DErr → Prop} (ha : ErrsIn a E) (hb : ErrsIn b E) :
-    ErrsIn (if c then a else b) E := by
-  split <;> assumption
-theorem errsIn_nUint (k : Nat) {E : DErr → Prop} : ErrsIn (nUint k) E := ErrsIn.liftO _
-theorem errsIn_nBytes (n : Nat) {E : DErr → Prop} : ErrsIn (nBytes n) E := ErrsIn.liftO _
-theorem errsIn_uN (k : Nat) : ErrsIn (uN k) (· = .ueof) := by
-  unfold uN
-  refine ErrsIn.bind (errsIn_nUint k) (fun r => ?_)
-  exact ErrsIn.ite (ErrsIn.fail _ rfl) (ErrsIn.pure _)
-theorem errsIn_decPeerAddr : ErrsIn decPeerAddr (· = .ueof) := by
-  unfold decPeerAddr
-  refine ErrsIn.bind (errsIn_uN 8) (fun _ => ?_)
-  refine ErrsIn.bind (errsIn_uN 8) (fun _ => ?_)
-  refine ErrsIn.bind (errsIn_nBytes 16) (fun _ => ?_)
-  refine ErrsIn.bind (errsIn_uN 2) (fun _ => ?_)
-  refine ErrsIn.bind (errsIn_uN 2) (fun _ => ?_)
-  refine ErrsIn.bind (errsIn_uN 8) (fun _ => ?_)
-  exact ErrsIn.pure _
-theorem errsIn_repeatD {body : Dec α} {E : DErr → Prop} (h : ErrsIn body E) (n : Nat) : ErrsIn (repeatD n body) E := by
-  induction n with
-  | zero => exact ErrsIn.pure _
-  | succ n ih =>
-    unfold repeatD
-    refine ErrsIn.bind h (fun _ => ?_)
-    refine ErrsIn.bind ih (fun _ => ?_)
-    exact ErrsIn.pure _
-
-/-- a count larger than the unread length can only end in `ErrUnexpectedEOF` -/
-theorem addrLoop_too_long (count : Nat) (s1 : St) (w : s1.src.wf) (h63 : s1.src.bs.length < 2 ^ 63)
-    (hgt : count > s1.src.bs.length - s1.src.off) : repeatD count decPeerAddr s1 = .err .ueof := by
-  have hs := spec_addrLoop count s1 w h63
-  cases hr : repeatD count decPeerAddr s1 with
-  | panic => rw [hr] at hs; exact hs.elim
-  | err e => rw [errsIn_repeatD errsIn_decPeerAddr count s1 e hr]
-  | ok r =>
-    exfalso
-    obtain ⟨l, s2⟩ := r
-    rw [hr] at hs
-    obtain ⟨adv, _, hR⟩ := hs
-    have hlen := (hR (by intro h; cases h)).2
-    rw [seg_length adv] at hlen
-    have := adv.2.2
-    rw [adv.1] at this
-    omega
-
-/-- the patch changes nothing but the panic -/
-theorem decAddr_conservative (s : St) (w : s.src.wf) (h63 : s.src.bs.length < 2 ^ 63) (h : decAddr .asShipped s ≠ .panic) :
-    decAddr .asShipped s = decAddr .sound s := by
-  unfold decAddr at h ⊢
-  show Dec.bind (uN 8) _ s = Dec.bind (uN 8) _ s
-  have h' : Dec.bind (uN 8) _ s ≠ .panic := h
-  unfold Dec.bind at h' ⊢
-  have hu8 := spec_uN (g := false) 8 (lt64 8) s w h63
-  cases hu : uN 8 s with
-  | panic => rfl
-  | err e => rfl
-  | ok r =>
-    obtain ⟨count, s1⟩ := r
-    rw [hu] at h' hu8
-    obtain ⟨adv, _, _⟩ := hu8
-    have w1 := adv.wf w
-    have h631 : s1.src.bs.length < 2 ^ 63 := by rw [adv.1]; exact h63
-    simp only at h' ⊢
-    -- `rem ← remaining` does not touch the state
-    show Dec.bind remaining _ s1 = Dec.bind remaining _ s1
-    have h'' : Dec.bind remaining _ s1 ≠ .panic := h'
-    unfold Dec.bind remaining at h'' ⊢
-    simp only at h'' ⊢
-    have hrem : (if s1.src.off ≥ s1.src.bs.length then 0 else s1.src.bs.length - s1.src.off) = s1.src.bs.length - s1.src.off := by
-      split <;> omega
-    rw [hrem] at h'' ⊢
-    have e1 : ((Variant.asShipped == Variant.sound) && decide (count > s1.src.bs.length - s1.src.off)) = false := rfl
-    rw [e1] at h'' ⊢
-    simp only [Bool.false_eq_true, if_false, beq_self_eq_true, Bool.true_and, decide_eq_true_eq] at h'' ⊢
-    by_cases hgt : count > s1.src.bs.length - s1.src.off
-    · rw [if_pos hgt]
-      by_cases hc : count < 2 ^ 63
-      · have : loopBound64 count = count := by unfold loopBound64; rw [if_pos hc]
-        rw [this]
-        show Dec.bind (repeatD count decPeerAddr) _ s1 = _
-        unfold Dec.bind
-        rw [addrLoop_too_long count s1 w1 h631 hgt]
-        rfl
-      · exfalso
-        apply h''
-        have hl : loopBound64 count = 0 := by unfold loopBound64; rw [if_neg hc]
-        have hgt2 : count > MAX_ADDR_NODE_CNT := by unfold MAX_ADDR_NODE_CNT; omega
-        simp only [hl, hgt2, if_true, decide_true]
-        rfl
-    · rw [if_neg hgt]
-
-theorem decodeAll_conservative (cmd p : Bytes) (hl : p.length < 2 ^ 63) (h : decodeAll .asShipped cmd p ≠ .panic) :
-    decodeAll .asShipped cmd p = decodeAll .sound cmd p := by
-  unfold decodeAll at h ⊢
-  by_cases hc : cmd = cAddr
-  · subst hc
-    have k := (decodePayload_known .asShipped).2.2.2.2.1
-    have k2 := (decodePayload_known .sound).2.2.2.2.1
-    rw [k] at h ⊢
-    rw [k2]
-    exact decAddr_conservative _ ⟨by simp [St.init], by simp [St.init]; unfold two64; omega⟩ (by simpa [St.init] using hl) h
-  · rw [decodePayload_variant cmd hc]
-
 /-- canonical payloads re-encode to themselves -/
-theorem decodeAll_reencode (cmd p : Bytes) (hl : p.length < 2 ^ 63) (m : Msg) (st : St)
-    (h : decodeAll .sound cmd p = .ok (m, st)) (hc : canonicalEnd p st = true) (ho : m.isOpaque = false) :
+theorem decodeAll_reencode (O : Oracle) (cmd p : Bytes) (hl : p.length < 2 ^ 63) (m : Msg) (st : St)
+    (h : decodeAll O cmd p = .ok (m, st)) (hc : canonicalEnd p st = true) (ho : m.isOpaque = false) :
     encode m = p := by
-  have hs := spec_decodePayload cmd (St.init p) ⟨by simp [St.init], by simp [St.init]; unfold two64; omega⟩ (by simpa [St.init] using hl)
+  have hs := spec_decodePayload O cmd (St.init p) ⟨by simp [St.init], by simp [St.init]; unfold two64; omega⟩ (by simpa [St.init] using hl)
   unfold decodeAll at h
   rw [h] at hs
   obtain ⟨adv, _, r⟩ := hs
@@ -269,8 +142,8 @@ theorem decodeAll_reencode (cmd p : Bytes) (hl : p.length < 2 ^ 63) (m : Msg) (s
     simp [seg, St.init, hc.2]
 
 theorem parseHeader_eval (hb : Bytes) (h : hb.length = 24) :
-    parseHeader (St.init hb) = .ok (⟨fromLE (hb.take 4), (hb.drop 4).take 12, fromLE ((hb.drop 16).take 4), (hb.drop 20).take 4⟩,
-      ⟨⟨hb, 24⟩, false⟩) := by
+    ∃ al, parseHeader (St.init hb) = .ok (⟨fromLE (hb.take 4), (hb.drop 4).take 12, fromLE ((hb.drop 16).take 4), (hb.drop 20).take 4⟩,
+      ⟨⟨hb, 24⟩, false, al⟩) := by
   have e : hb = leN 4 (fromLE (hb.take 4)) ++ (hb.drop 4).take 12 ++ leN 4 (fromLE ((hb.drop 16).take 4)) ++ (hb.drop 20).take 4 := by
     have l1 : (hb.take 4).length = 4 := by simp; omega
     have l2 : ((hb.drop 16).take 4).length = 4 := by simp; omega
@@ -312,12 +185,12 @@ theorem readFull_eq (st : Bytes) (n : Nat) (b r : Bytes) (h : readFull st n = .o
     · injection h with h; injection h with h1 h2; subst h1 h2; exact ⟨rfl, rfl, by assumption⟩
     · split at h <;> cases h
 
-theorem readMessage_checks (v : Variant) (magic : Nat) (H : Bytes → Bytes) (stream : Bytes) (r : ReadOk)
-    (h : readMessage v magic H stream = .ok r) :
+theorem readMessage_checks (O : Oracle) (magic : Nat) (H : Bytes → Bytes) (stream : Bytes) (r : ReadOk)
+    (h : readMessage O magic H stream = .ok r) :
     24 ≤ stream.length ∧ fromLE (stream.take 4) = magic ∧ r.len = fromLE ((stream.drop 16).take 4) ∧
     r.len ≤ MAX_PAYLOAD_LEN ∧ r.alloc ≤ MAX_PAYLOAD_LEN ∧ 24 + r.len + r.rest.length = stream.length ∧
     H ((stream.drop 24).take r.len) = (stream.drop 20).take 4 ∧
-    decodePayload v (trimRight0 ((stream.drop 4).take 12)) (St.init ((stream.drop 24).take r.len)) = .ok (r.msg, r.fin) := by
+    decodePayload O (trimRight0 ((stream.drop 4).take 12)) (St.init ((stream.drop 24).take r.len)) = .ok (r.msg, r.fin) := by
   unfold readMessage at h
   cases h1 : readFull stream 24 with
   | error e => rw [h1] at h; cases h
@@ -327,7 +200,8 @@ theorem readMessage_checks (v : Variant) (magic : Nat) (H : Bytes → Bytes) (st
     rw [h1] at h
     simp only at h
     have hbl : hb.length = 24 := by rw [e1]; simp; omega
-    rw [parseHeader_eval hb hbl] at h
+    obtain ⟨alh, hph⟩ := parseHeader_eval hb hbl
+    rw [hph] at h
     simp only at h
     split at h
     · cases h
@@ -345,7 +219,7 @@ theorem readMessage_checks (v : Variant) (magic : Nat) (H : Bytes → Bytes) (st
           split at h
           · cases h
           · rename_i hck
-            cases h4 : decodePayload v (trimRight0 ((hb.drop 4).take 12)) (St.init buf) with
+            cases h4 : decodePayload O (trimRight0 ((hb.drop 4).take 12)) (St.init buf) with
             | panic => rw [h4] at h; cases h
             | err e => rw [h4] at h; cases h
             | ok r4 =>
